@@ -197,7 +197,8 @@ impl G {
                 let mut pre = vec![];
                 let mut post_items = vec![];
                 let (from, to, step) = match n.kind {
-                    6 => (num(1), num(2), None),
+                    // odd construct numbers write the limit with a fraction: it is converted to the counter's type (1.75 is 2)
+                    6 => (num(1), if id % 2 == 1 { Expr::Num("1.75".into()) } else { num(2) }, None),
                     7 => (num(1), num(4), Some(num(2))),
                     8 => (num(2), num(1), Some(num(-1))),
                     _ => {
